@@ -44,7 +44,8 @@ def run(ctx):
     two = sum(1 for s in scns if res[s["sc"]]["nch"] == 2 and res[s["sc"]]["cok"])
     cookies = sum(1 for s in scns if s["hrr_cookie"] and res[s["sc"]]["cok"])
     inval = sum(1 for e in events2 if e["ev"] == "Result" and not e["cok"])
-    if two == 0 or cookies == 0 or inval == 0:
+    if (two == 0 or cookies == 0 or inval == 0) and not ctx.findings:
+        # (with findings on record the missing class is explained by them: report those, not a vacuous run)
         raise vlib.Machinery("vacuous: completed-after-hrr=%d with-cookie=%d invalid-hrr-aborts=%d" % (two, cookies, inval))
     cov = {"evaluations": len(scns) + len(scns2), "distinct_nontrivial": len(scns) + len(scns2),
            "rule": "per TLS 1.3 parrot: every offered classical group without a share x cookie length {0,1,255} (hooks H5/H6), both ClientHellos diffed by TLC (CH2Problems); plus HRRs naming an unoffered or already shared group; distinct = scenarios",
